@@ -22,13 +22,13 @@ REQUIRED = {
     "aggregate_checks": 10, "epochs_observed": 10, "nll_checks": 5,
     "plan_value_checks": 5, "ts_inf_steps_checked": 10, "pendulum_rewards": 100,
 }
-TIMEOUT = {"quick": 1200, "thorough": 3400}
+TIMEOUT = {"quick": 1200, "thorough": 7000}
 ASSUMPTIONS = ["float32 outputs compared with float64 references, rtol 1e-4"]
 
 
 def gen_cases(tier, seed):
     rng = np.random.default_rng(seed + 1717)
-    k = 1 if tier == "quick" else 8
+    k = 1 if tier == "quick" else 30
     cases = []
     for E in (1, 2, 4):
         for out in (1, 2, 3, 4):
